@@ -104,9 +104,15 @@ class _Runner(_Processor):
         async for key, payload, params in consumer:
             actor = actors[key.topic]
             if self._limiter.locked():
-                await consumer.pause()
-                await self._limiter.acquire()
-                await consumer.unpause()
+                try:
+                    await consumer.pause()
+                    await self._limiter.acquire()
+                    await consumer.unpause()
+                except asyncio.CancelledError:
+                    # runner is stopping while the message waits for a free slot:
+                    # give the message back, otherwise nobody is going to do it
+                    await self._conn.message_broker.reject(key)
+                    raise
             else:
                 await self._limiter.acquire()
             if self.max_tasks_exceeded:
